@@ -151,6 +151,7 @@ func TestVerifC18Handshake(t *testing.T) {
 				var blIv c18hIv
 				lastExpiryObs := -1
 				hadBan := false
+				tainted := false
 				certain, skipped := 0, 0
 
 				// send performs one handshake message from a fresh or given connection and judges the gate
@@ -162,8 +163,15 @@ func TestVerifC18Handshake(t *testing.T) {
 					q := c18hIv{c0, r0}
 					log = append(log, c18hEvent{ev, name, c0.Microseconds(), r0.Microseconds(), cl})
 					if strings.HasPrefix(cl, "other:") {
+						// a reply the model has no rule for (it may or may not have recorded a failure):
+						// nothing after it on this address is judged
 						run.Count("replies_unclassified", 1)
 						run.Observe("unclassified_reply_example", cl)
+						tainted = true
+					}
+					if tainted {
+						skipped++
+						return cl
 					}
 					if blacklisted && c0 > blIv.R {
 						// blacklisted for 1 h: every message must be refused at the first gate
